@@ -148,10 +148,10 @@ func runChunkServer(ctx context.Context, opt chunkServerOptions, args []string) 
 		handler = withLog(handler, log.New(l, "", log.LstdFlags))
 	}
 
-	http.Handle("/", handler)
-
-	// Start the server
-	return serve(ctx, opt.cmdServerOptions, addresses...)
+	// Start the server. The handler is the only one it has: the default mux
+	// also holds whatever handlers imported packages register on their own,
+	// like /debug/requests and /debug/events of golang.org/x/net/trace
+	return serve(ctx, opt.cmdServerOptions, handler, addresses...)
 }
 
 // Wrapper for http.HandlerFunc to add logging for requests (and response codes)
